@@ -350,6 +350,11 @@ def types : List Row := [
     ([("first", .arg 0), ("second", .arg 1)] ++ ctype ++ [("containing_type", .arg 0), ("member_type", .arg 1)]),
   unaryType "type_factory::get_reference(Type)" .Reference "refers_to",
   unaryType "type_factory::get_rvalue_reference(Type)" .Rvalue_reference "refers_to",
+  -- the same request made right after the request for a proper prefix / for an extension of the sequence: still exactly the operands
+  seqType "type_factory::get_product(Warehouse<Type>)#after-prefix" .Product "Warehouse<Type>",
+  seqType "type_factory::get_product(Warehouse<Type>)#after-extension" .Product "Warehouse<Type>",
+  seqType "type_factory::get_sum(Warehouse<Type>)#after-prefix" .Sum "Warehouse<Type>",
+  seqType "type_factory::get_sum(Warehouse<Type>)#after-extension" .Sum "Warehouse<Type>",
   seqType "type_factory::get_sum(Sequence<Type>)" .Sum "Sequence<Type>",
   seqType "type_factory::get_sum(Warehouse<Type>)" .Sum "Warehouse<Type>",
   node "type_factory::get_forall(Product,Type)" .Forall .unified ["Product", "Type"] (some (.const .k_typename))
